@@ -386,6 +386,43 @@ def run(ctx):
         ck.extra['digest_size_domain'] = sorted(fielddom.by_name(prog).get('digest_size', []))
         ck.require(max(fielddom.by_name(prog).get('digest_size', [0])) >= 64,
                    'value set of digest_size no longer derivable from the hash table')
+        # ---- i  what the header says is what is configured: a function that a header parser hands a decoded value to
+        #         (hash type, compression type, flags) does not replace its integer parameter before storing it
+        from ..program import all_exprs as _ae13, is_assign_op as _ia13
+        parsers = [f_ for f_ in prog.lib_funcs() if f_.name in ('read_lead', 'read_preface', 'index_read', 'read_index',
+                                                                'read_sig', 'read_header_from_file')]
+        ck.require(len(parsers) >= 4, 'header parsers not found')
+        callees = {}
+        for pf_ in parsers:
+            for ex in _ae13(pf_):
+                for c_ in calls_in(ex):
+                    fs_, _e = prog.call_targets(pf_, c_)
+                    for t_ in fs_:
+                        if prog.is_lib_unit(t_.unit) and t_.body is not None and not t_.name.startswith(('compint_', 'zck_log', 'set_error', 'set_fatal')):
+                            callees[t_.qname] = t_
+        npar = 0
+        for q_, t_ in sorted(callees.items()):
+            ints_ = dict((p_.decl, p_.op) for p_ in t_.params if not (p_.t or '').rstrip().endswith('*'))
+            if not ints_:
+                continue
+            npar += len(ints_)
+            hit = None
+            for ex in _ae13(t_):
+                for n_ in walk(ex):
+                    # a plain assignment of a value that does not depend on the parameter replaces it (peeling bits
+                    # off with -=, >>= or x = x - k is a decomposition, decided for the flags by C13-f)
+                    if n_.k == 'bin' and n_.op == '=':
+                        l_ = strip(n_.a[0])
+                        if l_ is not None and l_.k == 'var' and l_.decl in ints_ and \
+                                not any(x_.k == 'var' and x_.decl == l_.decl for x_ in walk(n_.a[1])):
+                            hit = hit or (n_, ints_[l_.decl])
+            ck.ob('C13-i', 'R8.param-intact', t_.name, 'parameters', hit is None,
+                  '%s() stores the value(s) it is given (%s) without replacing them' % (t_.name, ', '.join(sorted(ints_.values())))
+                  if hit is None else
+                  '%s() replaces its parameter %s before storing it (%s): when a header parser calls it with the value read '
+                  'from the file, the context is configured with - and reports - another value than the file holds'
+                  % (t_.name, hit[1], show(hit[0])[:60]), t_.file, hit[0].line if hit else t_.line, config=config)
+        ck.min_instances('integer parameters of functions the header parsers call', npar, 3)
         # ---- g  no gate of the parsers compares a narrowed value
         from ..rules import extra
         extra.check_narrow_compare(ck, prog, config, 'C13-g', ('src/lib/header.c', 'src/lib/index/index_read.c',
